@@ -190,6 +190,7 @@ type Req struct {
 	FailAfter   int    // >= 0: the body reader fails after that many bytes
 	PfBody      string // PROPFIND: none | allprop | propname | empty | bad | junk
 	Cancel      int    // >= 0: the request context is cancelled once that many body bytes were delivered (0: before the request is served)
+	Delivery    string // how the body reaches the handler: "" exact | unknown | larger | smaller | eofdata | bytewise
 	Race        string // what happens to the sandbox when the body is first read: "" | rmparent | mkdirtarget | mkdirfull | filetarget | parentfile | rmroot
 }
 
@@ -200,13 +201,20 @@ func NewReq(method, path string) Req {
 func (r Req) Sx() string {
 	items := []string{"req", hx.S(r.Method), hx.S(r.Path), hx.S(r.Depth), hx.S(r.Overwrite), hx.S(r.Dest), hx.S(r.CType),
 		hx.S(r.IfMatch), hx.S(r.IfNoneMatch), hx.S(r.Body), hx.I(int64(r.FailAfter)), r.PfBody}
-	if r.Cancel >= 0 || r.Race != "" {
+	if r.Cancel >= 0 || r.Race != "" || r.Delivery != "" {
 		// the model has no such field: no function of the file server reads the
 		// context, and the correspondence shows that the code ignores it too
 		items = append(items, hx.I(int64(r.Cancel)))
 	}
-	if r.Race != "" {
-		items = append(items, r.Race)
+	if r.Race != "" || r.Delivery != "" {
+		race := r.Race
+		if race == "" {
+			race = "norace"
+		}
+		items = append(items, race)
+	}
+	if r.Delivery != "" {
+		items = append(items, r.Delivery)
 	}
 	return hx.L(items...)
 }
@@ -218,8 +226,11 @@ func ParseReq(x hx.Sx) Req {
 	if len(a) > 11 {
 		r.Cancel = int(a[11].Int())
 	}
-	if len(a) > 12 {
+	if len(a) > 12 && a[12].Atom != "norace" {
 		r.Race = a[12].Atom
+	}
+	if len(a) > 13 {
+		r.Delivery = a[13].Atom
 	}
 	return r
 }
@@ -257,6 +268,36 @@ func (f *failReader) Read(p []byte) (int, error) {
 	return n, nil
 }
 func (f *failReader) Close() error { return nil }
+
+// eofDataReader returns its last bytes together with io.EOF (as net/http's body readers may).
+type eofDataReader struct{ data []byte }
+
+func (e *eofDataReader) Read(p []byte) (int, error) {
+	n := copy(p, e.data)
+	e.data = e.data[n:]
+	if len(e.data) == 0 {
+		return n, io.EOF
+	}
+	return n, nil
+}
+
+// byteReader delivers one byte per Read.
+type byteReader struct{ data []byte }
+
+func (b *byteReader) Read(p []byte) (int, error) {
+	if len(b.data) == 0 {
+		return 0, io.EOF
+	}
+	if len(p) == 0 {
+		return 0, nil
+	}
+	p[0] = b.data[0]
+	b.data = b.data[1:]
+	return 1, nil
+}
+
+// hidden keeps http.NewRequest from recognising the reader and setting a Content-Length.
+type hidden struct{ io.Reader }
 
 type closeFailReader struct{ r io.Reader }
 
@@ -418,12 +459,27 @@ func (d Derived) Sx() string {
 	return hx.L("drv", d.DestKind, hx.S(d.DestPath), optS(d.DIfMatch), optS(d.DIfNoneMatch), d.PfForm, hx.I(d.Stamp), hx.S(d.DirTag), hx.B(d.BodyFails), hx.L(mt...), hx.S(d.Sniffed))
 }
 
-func decodeTag(h string) *string {
+func decodeTag(h string) (out *string) {
+	defer func() {
+		if recover() != nil {
+			out = nil // a panic of the codec shows as a disagreement with the codec model, not as a dead harness
+		}
+	}()
 	t, err := webdav.ConditionalMatch(h).ETag()
 	if err != nil {
 		return nil
 	}
 	return &t
+}
+
+// guardedStat is LocalFileSystem.Stat called by the harness itself (to learn tags and stamps).
+func (s *Sandbox) guardedStat(name string) (fi *webdav.FileInfo, err error) {
+	defer func() {
+		if p := recover(); p != nil {
+			fi, err = nil, fmt.Errorf("panic: %v", p)
+		}
+	}()
+	return s.FS.Stat(context.Background(), name)
 }
 
 // Entry is one multistatus response, reduced.
@@ -626,7 +682,7 @@ func (s *Sandbox) Do(r Req, before *Node) (Derived, Obs, *Node) {
 	}
 	d.DIfMatch = decodeTag(r.IfMatch)
 	d.DIfNoneMatch = decodeTag(r.IfNoneMatch)
-	if fi, err := s.FS.Stat(context.Background(), r.Path); err == nil && fi.IsDir {
+	if fi, err := s.guardedStat(r.Path); err == nil && fi.IsDir {
 		d.DirTag = fi.ETag
 	}
 	// media types: the registry for every extension in play, and what the content of the
@@ -748,7 +804,32 @@ func (s *Sandbox) Do(r Req, before *Node) (Derived, Obs, *Node) {
 	} else if r.Cancel > 0 {
 		body = &cancelReader{r: body, after: r.Cancel, cancel: cancel}
 	}
+	var rawBody string
+	if sr, ok := body.(*strings.Reader); ok && r.Delivery != "" {
+		b, _ := io.ReadAll(sr)
+		rawBody = string(b)
+		switch r.Delivery {
+		case "eofdata":
+			body = &eofDataReader{data: b}
+		case "bytewise":
+			body = &byteReader{data: b}
+		default:
+			body = hidden{strings.NewReader(rawBody)}
+		}
+	}
 	req := httptest.NewRequest("GET", "http://h/", body).WithContext(ctx)
+	switch r.Delivery {
+	case "unknown", "eofdata", "bytewise":
+		req.ContentLength = -1
+	case "larger":
+		req.ContentLength = int64(len(rawBody)) + 7
+	case "smaller":
+		if len(rawBody) > 0 {
+			req.ContentLength = int64(len(rawBody)) - 1
+		} else {
+			req.ContentLength = -1
+		}
+	}
 	req.Method = r.Method
 	req.URL.Path = r.Path
 	req.RequestURI = ""
@@ -828,7 +909,7 @@ func (s *Sandbox) Do(r Req, before *Node) (Derived, Obs, *Node) {
 	}
 	// modification time the OS gave to what this request wrote (PUT target)
 	if r.Method == "PUT" && o.Status < 300 {
-		if fi, err := s.FS.Stat(context.Background(), r.Path); err == nil {
+		if fi, err := s.guardedStat(r.Path); err == nil {
 			d.Stamp = fi.ModTime.UnixNano()
 		}
 	}
